@@ -26,6 +26,18 @@ Ltac denorm :=
       destruct (Rgt_dec a b) as [Hgt | Hngt];
       [ try (exfalso; assert (0 <= b - a) by interval with (i_prec 80); lra)
       | try (exfalso; assert (0 < a - b) by interval with (i_prec 80); lra) ]
+  | |- context [Rge_dec ?a ?b] =>
+      destruct (Rge_dec a b) as [Hgt | Hngt];
+      [ try (exfalso; assert (0 < b - a) by interval with (i_prec 80); lra)
+      | try (exfalso; assert (0 <= a - b) by interval with (i_prec 80); lra) ]
+  | |- context [Rlt_dec ?a ?b] =>
+      destruct (Rlt_dec a b) as [Hgt | Hngt];
+      [ try (exfalso; assert (0 <= a - b) by interval with (i_prec 80); lra)
+      | try (exfalso; assert (0 < b - a) by interval with (i_prec 80); lra) ]
+  | |- context [Rle_dec ?a ?b] =>
+      destruct (Rle_dec a b) as [Hgt | Hngt];
+      [ try (exfalso; assert (0 < a - b) by interval with (i_prec 80); lra)
+      | try (exfalso; assert (0 <= b - a) by interval with (i_prec 80); lra) ]
   end.
 
 (* a stored numeric field after a generated setter *)
